@@ -601,6 +601,25 @@ def check_C01(ctx):
                 lcases.append({"op": "run", "env": {}, "version": None, "root": gen.mkcmd("app", decls=copy.deepcopy(ldecls), spec=sp, policy=0), "argv": list(t)})
     if len(lcases) > ctx.scale(5000, 40000):
         lcases = ctx.rng.sample(lcases, ctx.scale(5000, 40000))
+    # ... names of twenty bytes that agree on their first and last eight, clusters of twenty letters
+    l2decls = [gen.mkopt("custom", "include-srcs-files", custom=dict(gen.CUSTOM_FLAG)), gen.mkopt("custom", "include-docs-files", custom=dict(gen.CUSTOM_FLAG)),
+               gen.mkopt("custom", "a", custom=dict(gen.CUSTOM_FLAG)), gen.mkopt("custom", "b", custom=dict(gen.CUSTOM_FLAG))]
+    P_, Q_ = "--include-srcs-files", "--include-docs-files"
+    l2toks = [P_, Q_, "-b", "-a", "-aaaaaaaaabaaaaaaaaaa", "-aaaaaaaaaaaaaaaaaaaa"]
+    for sp in ("(%s | %s) -b %s" % (P_, Q_, P_), "(%s | %s) -b [%s]" % (Q_, P_, Q_), "(-a | -b) -a...", "[%s] [%s] -b %s" % (P_, Q_, P_), "(%s | %s | -a)... -b" % (P_, Q_)):
+        for n in (1, 2, 3, 4):
+            for t in itertools.product(l2toks, repeat=n):
+                if ctx.rng.random() < (1.0 if n < 4 else 0.25):
+                    lcases.append({"op": "run", "env": {}, "version": None, "root": gen.mkcmd("app", decls=copy.deepcopy(l2decls), spec=sp, policy=0), "argv": list(t)})
+    # ... and a folded token behind seventy other option tokens (what is left of the line keeps its number of tokens while a
+    # cluster is taken apart letter by letter)
+    fdecl = [gen.mkopt("custom", "a", custom=dict(gen.CUSTOM_FLAG)), gen.mkopt("custom", "b", custom=dict(gen.CUSTOM_FLAG))]
+    for sp in ("-a... -b...", "(-a | -b)...", "[-a...] -b..."):
+        for k_ in (30, 70, 100):
+            for cl in (["-aaa"], ["-a", "-a", "-a"], ["-aa", "-a"], ["-aaaa"]):
+                for front in (False, True):
+                    line = (cl + ["-b"] * k_) if front else (["-b"] * k_ + cl)
+                    lcases.append({"op": "run", "env": {}, "version": None, "root": gen.mkcmd("app", decls=copy.deepcopy(fdecl), spec=sp, policy=0), "argv": line})
     blank += lcases
     blank += dd_env_cases(ctx, ctx.scale(6000, 60000))
     number(blank, start=len(cases) + len(sc))
